@@ -90,6 +90,18 @@ def run(pid, only=None):
 
 
 def _run_once(pid, only=None):
+    # one stand-in build+run at a time per cache directory (shared cargo target directory)
+    import fcntl
+    os.makedirs(CACHE, exist_ok=True)
+    with open(os.path.join(CACHE, "standin.lock"), "w") as lk:
+        fcntl.flock(lk, fcntl.LOCK_EX)
+        try:
+            return _run_once_locked(pid, only)
+        finally:
+            fcntl.flock(lk, fcntl.LOCK_UN)
+
+
+def _run_once_locked(pid, only=None):
     names = [t for t in tests_for(pid) if only is None or t in only]
     filt = "standin_" if only is None or len(names) != 1 else names[0]
     if not names:
